@@ -252,7 +252,8 @@ def generalized_fma(mult_pairs, add_wires, signed=False, reducer=adders.wallace_
         for bit_loc, bit in enumerate(wire):
             bits[bit_loc].append(bit)
 
-    import math
-    result_bitwidth = (longest_wire_len
-                       + int(math.ceil(math.log(len(add_wires) + len(mult_pairs), 2))))
+    # size the result for the largest value the sum of products can take
+    max_result = (sum(((1 << len(a)) - 1) * ((1 << len(b)) - 1) for a, b in mult_pairs)
+                  + sum((1 << len(w)) - 1 for w in add_wires))
+    result_bitwidth = max(longest_wire_len, max_result.bit_length())
     return reducer(bits, result_bitwidth, adder_func)
